@@ -2,7 +2,7 @@ SPECIFICATION Spec
 CONSTANTS
   MaxLen = 3
   MaxId = 6
-  Ops = {"push","pop","insert","remove","set","resize","extend_move","extend_clone","clear","truncate","shrink","clone","drop"}
+  Ops = {"push","pop","insert","remove","set","resize","resize_with","extend_move","extend_clone","clear","truncate","shrink","clone","drop"}
 CONSTRAINT Bound
 INVARIANT TypeInv OwnershipInv
 PROPERTY NoResurrection OneObjectPerCall OrderKept
